@@ -14,6 +14,9 @@ const header = "From GL Require Import Common.Bytes Text.Quote Text.StrLit Text.
 func main() {
 	// the property is stated for a zone without transitions: everything runs in UTC
 	time.Local = time.UTC
+	if len(os.Args) >= 3 && os.Args[1] == "child" {
+		os.Exit(child(os.Args[2:]))
+	}
 	a := lib.ParseArgs()
 	if a.Cmd != "run" {
 		fmt.Fprintln(os.Stderr, "unknown command", a.Cmd)
